@@ -15,7 +15,8 @@
 //!     same library, printing per-cycle traces; all tests in ONE `veryl test`
 //!     process restricted to one CPU (`taskset` ⇒ one worker) with DUT reuse
 //!     (default), in alphabetical and in a forced dispatch order, versus the
-//!     same with `VERYL_DUT_REUSE=0` and (1/3 of the projects) each test alone.
+//!     same with `VERYL_DUT_REUSE=0` and (thorough tier, 1/3 of the projects) each
+//!     test alone.
 //!     Oracle: equal (status, message, output) per test.
 //!
 //! A difference is re-run before it is reported (the CLI runs are repeated;
@@ -759,7 +760,8 @@ fn cli_case(d: &mut Draw, cc_ok: bool, quick: bool) -> Outcome {
     // quick tier: at most 6 tests, no `--backend cc` projects (a synchronous
     // `cc` run per function and test)
     let p = gen_cli_project(d, cc_ok && !quick, if quick { 6 } else { 8 });
-    let alone = d.chance(1, if quick { 6 } else { 3 });
+    // each test alone: one more process per test — thorough tier only
+    let alone = !quick && d.chance(1, 3);
     let t0 = std::time::Instant::now();
     let o = cli_evaluate(d, &p, alone);
     if std::env::var("C34_TIMING").is_ok() {
@@ -826,7 +828,7 @@ pub fn run(ctx: &Ctx) {
         ctx.run("api-designs", CaseCfg::cases(n2).choices(8000).timeout_s(900).shrink_iters(60), |d| api_designs_case(d, cc_ok));
     }
     if only.is_empty() || only == "cli" {
-        let n = std::env::var("C34_CLI_CASES").ok().and_then(|s| s.parse().ok()).unwrap_or(ctx.scale(10, 1500));
+        let n = std::env::var("C34_CLI_CASES").ok().and_then(|s| s.parse().ok()).unwrap_or(ctx.scale(8, 1500));
         let quick = ctx.is_quick();
         let total = std::thread::available_parallelism().map(|n| n.get()).unwrap_or(1);
         ctx.run("cli", CaseCfg::cases(n).choices(6000).threads(total.min(12)).shrink_iters(6).timeout_s(3000), |d| cli_case(d, cc_ok, quick));
